@@ -377,7 +377,8 @@ class Parser:
         else:
             name, type, lineno, token = p[3], p[2], p.lineno(3), p[3]
             write_stderr(
-                f"syntax warning: keyword typedef deprecated, suggestion: type {name} = ..."
+                f"syntax warning: {self.current_filepath()}:L{lineno} keyword"
+                f" typedef deprecated, suggestion: type {name} = ..."
             )
 
         p[0] = alias = Alias(
@@ -802,7 +803,11 @@ class Parser:
     def p_error(self, p: P) -> None:
         filepath = self.current_filepath()
         if p is None:
-            raise GrammarError(message="Grammar error at eof.", filepath=filepath)
+            # Nothing left to read: cite the last line that has content.
+            lineno = self.lexer.lexer.lexdata.rstrip().count("\n") + 1
+            raise GrammarError(
+                message="Grammar error at eof.", filepath=filepath, lineno=lineno
+            )
         if isinstance(p, LexToken):
             raise GrammarError(filepath=filepath, token=str(p.value), lineno=p.lineno)
         if len(p) > 1:
